@@ -29,6 +29,7 @@ func init() {
 	})
 	register("C09", false, func(p *core.Prog, r *core.Report, tier string) {
 		orders.SegmentOrder(p, r)
+		orders.RegionAlgebra(p, r, 3)
 		r.Exhaustive = true
 		r.NotDecided = append(r.NotDecided, "the merge loop of Minimize", "abutment handling", "gap enumeration of invertSegments", "the circular merge of InvertCircular")
 		r.Assumptions = append(r.Assumptions, "sort.Sort sorts correctly when given a strict weak order")
@@ -52,6 +53,7 @@ func init() {
 	register("C15", false, func(p *core.Prog, r *core.Report, tier string) {
 		conserve.C15(p, r)
 		orders.SegmentOrder(p, r)
+		orders.RegionAlgebra(p, r, 2)
 	})
 	register("C11", true, func(p *core.Prog, r *core.Report, tier string) { effects.C11(p, r) })
 	register("C13", false, func(p *core.Prog, r *core.Report, tier string) { integrity.C13(p, r) })
